@@ -36,6 +36,9 @@ Inductive dec_res :=
 Definition key_of4 (l : bytes) : key :=
   match l with [a;b;c;d] => (a,b,c,d) | _ => zero_key end.
 
+(* frame.go:75-84 : how many bytes of extended length follow the 7-bit field *)
+Definition dec_ext (l7 : N) : nat := if l7 =? 126 then 2%nat else if l7 =? 127 then 8%nat else 0%nat.
+
 Definition dec_hdr (inp : bytes) : dec_res :=
   match inp with
   | b0 :: b1 :: r =>
@@ -44,7 +47,7 @@ Definition dec_hdr (inp : bytes) : dec_res :=
     let opc := b0 mod 16 in
     let masked := 128 <=? b1 in
     let l7 := b1 mod 128 in
-    let ext := if l7 =? 126 then 2%nat else if l7 =? 127 then 8%nat else 0%nat in
+    let ext := dec_ext l7 in
     match take_n ext r with
     | None => DecShort
     | Some (eb, r1) =>
